@@ -3865,6 +3865,10 @@ class BoutMesh(Mesh):
             # Create poloidal coordinate which goes from 0 to 2pi in the core region
             theta = deepcopy(y)
             myg = self.user_options.y_boundary_guards
+            if eq_region0.connections[0]["lower"] is not None:
+                # Grid does not start at a target (core-only grid), so there are no
+                # boundary guard cells
+                myg = 0
             for t in [theta.centre, theta.xlow, theta.ylow]:
                 # Make zero of theta half a point before the start of the core region
                 t -= theta.ylow[0, numpy.newaxis, jyseps1_1 + myg + 1, numpy.newaxis]
